@@ -71,4 +71,15 @@ func (g *idGenerator) fix(flts []FilterYAML) {
 		flts[i].ID = newID
 		set.Add(newID)
 	}
+
+	// Make sure that the identifiers generated later don't clash with the ones
+	// that are already in use, for example those generated after a previous
+	// start that was less seconds ago than the number of filters added since.
+	set.Range(func(id rulelist.URLFilterID) (cont bool) {
+		if id32 := int32(id); id32 > g.current.Load() {
+			g.current.Store(id32)
+		}
+
+		return true
+	})
 }
